@@ -1015,7 +1015,7 @@ func lagErr(err error) string {
 	case store.ErrBlockNotExist, store.ErrAccountNotExist:
 		return "notexist"
 	}
-	return "err(" + firstLine(err.Error()) + ")"
+	return "err(" + c19FirstLine(err.Error()) + ")"
 }
 
 func (w *lagWorld) showBlock(b *types.Block) string {
